@@ -2,7 +2,7 @@
    (Model/Geometry.v) against the graph-theoretic statements of Spec/Geometry.v. *)
 From Coq Require Import ZArith List Bool Lia.
 Require Import Rig.Model.Base Rig.Generated.GenGeometryLinks Rig.Generated.GenGeometry
-        Rig.Model.Geometry Rig.Spec.Geometry.
+        Rig.Generated.GenGeometryShapes Rig.Model.Geometry Rig.Spec.Geometry.
 Import ListNotations.
 Open Scope Z_scope.
 
@@ -449,6 +449,14 @@ Proof.
     + split; [reflexivity|]. exists 0, 0. unfold to2d; cbn [fst snd]. f_equal; lia.
 Qed.
 
+(* the translated tail of shortest_torus_path is the spiral adjustment as restated in the model *)
+Lemma torus_spiral_eq :
+  forall rint x y z w h, torus_spiral rint x y z w h = spiral rint (x, y, z) w h.
+Proof.
+  intros. unfold torus_spiral, spiral, max_spirals.
+  destruct (Z.abs x >=? h); [reflexivity|]. destruct (Z.abs y >=? w); reflexivity.
+Qed.
+
 Lemma torus_path_vector :
   forall k0 k1 k2 k3 rint s d w h, 1 <= w -> 1 <= h -> randint_contract rint ->
     exists v, shortest_torus_path k0 k1 k2 k3 rint s d w h = Ok v /\
@@ -460,9 +468,13 @@ Proof.
   intros k0 k1 k2 k3 rint s d w h Hw Hh Hr.
   unfold shortest_torus_path.
   destruct (Z.eqb_spec w 0); [lia|]. destruct (Z.eqb_spec h 0); [lia|]. cbn [orb].
-  eexists. split; [reflexivity|].
   destruct (torus_choice_spec k0 k1 k2 k3 s d w h Hw Hh) as (i & j & Hc & Hn).
   set (c := torus_choice k0 k1 k2 k3 s d w h) in *.
+  assert (Es : (let '(x, y, z) := minimise_xyz c in torus_spiral rint x y z w h) =
+               spiral rint (minimise_xyz c) w h)
+    by (destruct (minimise_xyz c) as [[mx my] mz]; apply torus_spiral_eq).
+  rewrite Es. clear Es.
+  eexists. split; [reflexivity|].
   assert (Hm : hops (minimise_xyz c) = hexnorm (to2d (minimise_xyz c)))
     by (rewrite minimise_hops, minimise_to2d; reflexivity).
   destruct (spiral_spec rint (minimise_xyz c) w h Hr Hw Hh Hm) as (Hh1 & p & q & Hh2).
